@@ -641,7 +641,7 @@ Lemma add_header_headers t k v :
 Proof.
   unfold add_request_header. destruct (dc_is_empty k); [reflexivity|].
   destruct (bytes_eqb (lower_ascii k) (str "content-type")).
-  - destruct (bytes_eqb _ dc_ct_urlencoded || is_prefix (dc_ct_urlencoded ++ [59]) _); [reflexivity|].
+  - destruct (bytes_eqb (dc_media_type _) dc_ct_urlencoded); [reflexivity|].
     destruct (is_prefix _ _); reflexivity.
   - destruct (bytes_eqb (lower_ascii k) (str "cookie")); reflexivity.
 Qed.
@@ -681,10 +681,10 @@ Section BodyFold.
 Variable fold : bytes -> bytes.
 Variable cookie_ord : bytes -> gmap.
 
-(* the content types AddRequestHeader takes for a urlencoded body: the media type alone or
-   followed by ';' and parameters, in any letter case *)
+(* the content types AddRequestHeader takes for a urlencoded body: the media type in any letter
+   case, optionally surrounded by white space, alone or followed by ';' and parameters *)
 Definition ct_is_urlencoded (ct : bytes) : bool :=
-  bytes_eqb (lower_ascii ct) dc_ct_urlencoded || is_prefix (dc_ct_urlencoded ++ [59]) (lower_ascii ct).
+  bytes_eqb (dc_media_type (lower_ascii ct)) dc_ct_urlencoded.
 
 Definition urlencoded_tx_ct (ct : bytes) : txv :=
   add_request_header fold cookie_ord txv_empty (str "Content-Type"%string) ct.
@@ -1244,29 +1244,6 @@ Proof.
   intros Hl Hr G P leaf I.
   eapply Permutation_in; [apply Permutation_sym; eapply json_visible_partial; eauto|].
   eapply read_items_leaves; eauto.
-Qed.
-
-(* ------------------------------------------------------------------------------------ *)
-(* 16. residual: optional white space before the ';' still hides a urlencoded body        *)
-(* ------------------------------------------------------------------------------------ *)
-
-(* (the form with ';' directly after the media type was a finding of this check, repaired by
-   commit 70bcddc; see urlencoded_visible_ct)
-   Content-Type: application/x-www-form-urlencoded ; charset=UTF-8 — legal per RFC 9110 (OWS
-   before ';'), accepted by mime.ParseMediaType — still selects no processor: the fields of the
-   body are in no variable, REQUEST_BODY stays empty, and no error variable is raised *)
-Theorem urlencoded_ct_ows_refuted :
-  exists (ct : bytes) (l : list kv), wf_pairs l /\ l <> [] /\
-  is_prefix dc_ct_urlencoded (lower_ascii ct) = true /\
-  forall fold cookie_ord o,
-    let t0 := add_request_header fold cookie_ord txv_empty (str "Content-Type"%string) ct in
-    let t := process_request_body fold (mk_bcfg true false 1024) o t0 (enc_urlencoded l) in
-    cm_find_all (v_args_post t) = [] /\ v_request_body t = [] /\ v_reqbody_error t = false.
-Proof.
-  exists (str "application/x-www-form-urlencoded ; charset=UTF-8"%string),
-         [(str "a"%string, str "1"%string); (str "b"%string, str "2"%string)].
-  split; [repeat constructor|]. split; [discriminate|]. split; [reflexivity|].
-  intros fold cookie_ord o. vm_compute. auto.
 Qed.
 
 (* ------------------------------------------------------------------------------------ *)
